@@ -11,9 +11,9 @@ from concurrent.futures import ProcessPoolExecutor
 
 import z3
 
-Z3_TIMEOUT_MS = int(os.environ.get('PYVC_Z3_MS', '20000'))
+Z3_TIMEOUT_MS = int(os.environ.get('PYVC_Z3_MS', '15000'))
 Z3_QUICK_MS = int(os.environ.get('PYVC_Z3_QUICK_MS', '3000'))
-CVC5_TIMEOUT_S = int(os.environ.get('PYVC_CVC5_S', '60'))
+CVC5_TIMEOUT_S = int(os.environ.get('PYVC_CVC5_S', '30'))
 CVC5 = '/usr/bin/cvc5'
 
 
